@@ -24,10 +24,14 @@ pub struct TxSim;
 const ALPHABET: [Lab; 6] = [fg::L6A, fg::L6B, fg::L3A, fg::L3B, Lab::Bcast, Lab::ReUse];
 
 /// drive clones of both encapsulators through the same sends; first difference is returned
-fn battery(a: &Enc, b: &Enc, extra: &Lab, depth: usize) -> Option<String> {
+fn battery(a: &Enc, b: &Enc, extra: &[Lab], depth: usize) -> Option<String> {
     let mut labs: Vec<Lab> = ALPHABET.to_vec();
-    if !labs.contains(extra) && !extra.is_zero6() {
-        labs.push(*extra);
+    labs.push(Lab::L3([0; 3]));
+    // every label this run has passed so far: the remembered label can only be one of them
+    for e in extra {
+        if !labs.contains(e) && !e.is_zero6() {
+            labs.push(*e);
+        }
     }
     let pdu = [0x42u8];
     for l in &labs {
@@ -40,6 +44,18 @@ fn battery(a: &Enc, b: &Enc, extra: &Lab, depth: usize) -> Option<String> {
             let rb = tx_encap(&mut cb, &pdu, 1, 0x0800, l, &mut bb);
             if ra != rb || ba != bb {
                 return Some(format!("send #{} of label {}: real {:?} {} vs twin {:?} {}", i + 1, l.short(), ra.class(), wire::hex(&ba[..8]), rb.class(), wire::hex(&bb[..8])));
+            }
+            // the same through encap_ext (one optional extension without data)
+            if i == 1 {
+                let mut ba = [0u8; 20];
+                let mut bb = [0u8; 20];
+                let ea = vec![Extension::new(0x0100, &[]).unwrap()];
+                let eb = vec![Extension::new(0x0100, &[]).unwrap()];
+                let ra = tx_encap_ext(&mut ca, &pdu, 1, 0x0800, l, &mut ba, ea);
+                let rb = tx_encap_ext(&mut cb, &pdu, 1, 0x0800, l, &mut bb, eb);
+                if ra != rb || ba != bb {
+                    return Some(format!("encap_ext send after {} sends of label {}: real {:?} {} vs twin {:?} {}", i + 1, l.short(), ra.class(), wire::hex(&ba[..8]), rb.class(), wire::hex(&bb[..8])));
+                }
             }
             // interleave another label once to expose counter differences
             if i == 0 && depth > 2 {
@@ -109,6 +125,7 @@ impl Scenario for TxSim {
         let mut log = H64::new();
         let mut viol: Option<Violation> = None;
         let mut failing_calls = 0u32;
+        let mut labels_used: Vec<Lab> = vec![];
         let mut cont_checked = 0u32;
         let mut emitted_starts = 0u32;
         let mut previews = 0u32;
@@ -136,10 +153,23 @@ impl Scenario for TxSim {
                     let pdu = pdu_bytes(len, op.get_u("seed"));
                     let ptype = op.get_u("ptype") as u16;
                     let lab = Lab::dec(op.get_h("lab"));
+                    if !labels_used.contains(&lab) && labels_used.len() < 16 {
+                        labels_used.push(lab);
+                    }
                     let fid = op.get_u("fid") as u8;
                     let buf_len = (op.get_u("buf") as usize).min(70_000);
-                    let exts = dec_exts(op.get_h("exts"));
+                    let mut exts = dec_exts(op.get_h("exts"));
                     let has_ext_arg = op.has("exts");
+                    if has_ext_arg && op.has("bigx_len") {
+                        let d = pdu_bytes((op.get_u("bigx_len") as usize).min(70_000), op.get_u("bigx_seed"));
+                        let e = ((op.get_u("bigx_id") & 0xFF) as u16, d);
+                        if op.get_u("bigx_last") == 1 {
+                            exts.push(e);
+                        } else {
+                            exts.insert(0, e);
+                        }
+                        st.inc("probe.encap_ext_with_large_mandatory_data");
+                    }
                     let before = canary(buf_len, opi as u8);
                     let mut buf = before.clone();
                     let twin = enc.clone();
@@ -228,7 +258,7 @@ impl Scenario for TxSim {
                             // failure atomicity: the twin never saw the call
                             let depth = if enc != twin { (led.max as usize + 3).max(6).min(260) } else if led.max > 0 { (led.max as usize + 2).min(260) } else { 3 };
                             st.inc("twin_batteries");
-                            if let Some(d) = battery(&enc, &twin, &lab, depth) {
+                            if let Some(d) = battery(&enc, &twin, &labels_used, depth) {
                                 report!(Violation::new("C09", "C09.state_changed_on_err", format!("{}:{:?}", call.name(), e), format!("after {:?} (pdu {}, buffer {}, label {}) the encapsulator behaves differently from a twin that never saw the call: {}", e, len, buf_len, lab.short(), d)));
                             }
                         }
@@ -595,7 +625,28 @@ pub mod gen {
                             }
                             let pt = if !exts.is_empty() && rng.chance(1, 3) { exts.last().unwrap().0 } else { any_ptype(rng) };
                             let len = any_len(rng);
-                            ops.push(enc(len, rng.next(), pt, &any_label(rng), rng.below(256) as u8, any_buf(rng, len), Some(&exts)));
+                            let mut o = enc(len, rng.next(), pt, &any_label(rng), rng.below(256) as u8, any_buf(rng, len), Some(&exts));
+                            // one call in eight carries a mandatory extension with a lot of data (kept out of the hex
+                            // list: id, length, content seed, first or last position): around 255, around the largest
+                            // packet, beyond it, beyond the 16-bit lengths
+                            if rng.chance(1, 8) {
+                                let bl = match rng.below(6) {
+                                    0 => rng.usize_in(200, 300),
+                                    1 => rng.usize_in(4060, 4100),
+                                    2 => 5000,
+                                    3 => rng.usize_in(65_500, 66_000),
+                                    4 => 70_000,
+                                    _ => rng.usize_in(9, 4000),
+                                };
+                                let last = rng.chance(1, 2);
+                                let bid = if last && rng.chance(1, 2) && pt < 0x100 { pt as u64 } else { rng.below(0x100) };
+                                o = o.u("bigx_id", bid).u("bigx_len", bl as u64).u("bigx_seed", rng.next()).u("bigx_last", last as u64);
+                                // buffers around what such a header needs
+                                if rng.chance(1, 2) {
+                                    o.set_u("buf", (bl + len + rng.usize_in(0, 40)).min(70_000) as u64);
+                                }
+                            }
+                            ops.push(o);
                         }
                         8 => ops.push(Op::new("go").u("buf", rng.range(0, 5000))),
                         _ => {
